@@ -619,6 +619,15 @@ impl<'a> Gen<'a> {
                     });
                     let inner = self.meta_recv(depth + 1, false);
                     self.recvs[outer].shape = Shape::Newtype(Ty::Recv(inner));
+                    // ... and its only field may carry a transform of its own, which acts on whatever the
+                    // field was converted from, a handed-over item list included
+                    if self.profile.options && matches!(self.recvs[inner].shape, Shape::Struct(_)) && self.recvs[inner].generics.is_empty() {
+                        match self.rng.below(4) {
+                            0 => self.recvs[outer].inner_post = Post::Map,
+                            1 => self.recvs[outer].inner_post = Post::AndThen,
+                            _ => {}
+                        }
+                    }
                     Ty::Recv(outer)
                 }
                 _ => {
@@ -861,6 +870,13 @@ impl<'a> Gen<'a> {
                 }
                 if self.rng.chance(1, 5) {
                     r.allow_unknown = true;
+                }
+                // a container `default` on an enum: accepted, and there is no same-named field of an enum
+                // value for a variant's field to fall back to
+                match self.rng.below(12) {
+                    0 => r.cdefault = Def::Trait,
+                    1 => r.cdefault = Def::Func,
+                    _ => {}
                 }
             }
             r.shape = Shape::Enum(vars);
